@@ -996,6 +996,8 @@ def scheck(pid: str, tier: str, extra_assumptions=None, known=None) -> int:
         for cfg in ("asyncio", "eager", "uvloop"):
             real_cfg_runs[cfg] = 0
             for f in sorted(corpus_dir.glob("*.json")) if corpus_dir.exists() else []:
+                if json.loads(f.read_text()).get("virtual_only"):
+                    continue            # a history whose meaning depends on the virtual schedule (reason in the file)
                 rw = sreal.real_run(json.loads(f.read_text())["ops"], cfg)
                 if rw is None:
                     continue
